@@ -23,6 +23,7 @@ SO, USER = b"mp-so-pin", b"mp-user-pin"
 ATTRNAME = {1: "lab", 2: "id", 3: "sd"}
 ORDER = ["refresh", "txlock", "wlock", "trunc", "flush", "txunlock", "rm", "rmlock"]
 TIMEOUT = 8.0
+SHORT = 1.5      # a process that has not moved after this long sits in the kernel waiting for a file lock
 
 
 def write_conf(wd, backend=None):
@@ -81,6 +82,8 @@ class Worker(object):
         self.active = False
         self.phase = "refresh"
         self.dead = False
+        self.await_reply = None      # an ungated call (MGet / MFind) that is blocked on a lock another process holds
+        self.partial = 0             # operations released for a group that is not complete yet (blocked in between)
         r = self.wait()
         if r != "reply" or self.reply.get("ready") != "OK":
             raise RuntimeError("worker did not start: %r %r" % (r, self.reply))
@@ -188,39 +191,61 @@ class Coordinator(object):
         shutil.rmtree(self.wd, ignore_errors=True)
 
     def advance(self, p, a):
-        """releases the operations of p's call up to the end of group a; -> event or None (nothing to do)"""
+        """releases the operations of p's call up to the end of group a; -> event or None (nothing to do, or p is blocked
+        in the kernel on a lock another process holds: it goes on when that process is moved on)"""
         w = self.w[p]
         if not w.active:
             return None
-        n = 0
+        n = w.partial
         rv = ""
         while True:
             if w.pending is None:
-                r = w.wait()
+                r = w.wait(SHORT)
                 if r == "reply":
                     w.active = False
                     rv = w.reply.get("rv", "?")
                     if rv == "OK" and w.kind == "set":
                         self.done[p] += 1
                     break
-                if r in ("blocked", "died"):
-                    return dict(e="Blocked" if r == "blocked" else "ProcessDied", p=p, a=a)
+                if r == "blocked":
+                    w.partial = n
+                    return None
+                if r == "died":
+                    return dict(e="ProcessDied", p=p, a=a)
             g = classify(w.phase, *w.pending)
             if ORDER.index(g) > ORDER.index(a):
                 break
             w.phase = g
             w.release()
             n += 1
+        w.partial = 0
         if n == 0 and rv == "":
             return None
         return dict(e="S", p=p, a=a, n=n, rv=rv)
+
+    def call_event(self, p, name, rep):
+        if rep.get("rv") == "NOHANDLE":
+            return None
+        if name == "MGet":
+            return dict(e="Get", p=p, rv=rep["rv"], vals=rep.get("vals", [0, 0, 0]))
+        f = rep.get("found", [])
+        return dict(e="Find", p=p, rv=rep["rv"], n=len(f) + rep.get("unreadable", 0), vals=f[0][1:4] if f else [0, 0, 0])
 
     def step(self, label):
         name, args = parse_call(label)
         p = args[0]
         w = self.w[p]
+        if w.await_reply:
+            # a blocked ungated call: has it returned meanwhile?  (its linearization point is its return)
+            r = w.wait(0.05)
+            if r == "reply":
+                nm, w.await_reply = w.await_reply, None
+                return self.call_event(p, nm, w.reply)
+            if r == "died":
+                return dict(e="ProcessDied", p=p, a=w.await_reply)
+            return None
         if name == "MBegin":
-            if w.active:
+            if w.active or w.await_reply:
                 return None
             k = args[1]
             cmd = dict(c=k, k=1, gate=True)
@@ -236,36 +261,34 @@ class Coordinator(object):
                 return dict(e="Blocked" if r == "blocked" else "ProcessDied", p=p, a="begin")
             return dict(e="Begin", p=p, k=k)
         if name in ("MGet", "MFind"):
-            if w.active:
+            if w.active or w.await_reply:
                 return None
-            r, rep = w.call(dict(c="get" if name == "MGet" else "find", k=1))
+            w.send(dict(c="get" if name == "MGet" else "find", k=1))
+            r = w.wait(SHORT)
+            if r == "blocked":
+                w.await_reply = name          # waits for a lock: the answer is collected when it comes
+                return None
             if r != "reply":
-                return dict(e="Blocked" if r == "blocked" else "ProcessDied", p=p, a=name)
-            if rep.get("rv") == "NOHANDLE":
-                return None
-            if name == "MGet":
-                return dict(e="Get", p=p, rv=rep["rv"], vals=rep.get("vals", [0, 0, 0]))
-            f = rep.get("found", [])
-            return dict(e="Find", p=p, rv=rep["rv"], n=len(f) + rep.get("unreadable", 0), vals=f[0][1:4] if f else [0, 0, 0])
+                return dict(e="ProcessDied", p=p, a=name)
+            return self.call_event(p, name, w.reply)
         a = {"MRefresh": "refresh", "MTxLock": "txlock", "MWLock": "wlock", "MTrunc": "trunc", "MFlush": "flush",
              "MTxUnlock": "txunlock", "MRm": "rm", "MRmLock": "rmlock"}[name]
         return self.advance(p, a)
 
     def drain(self):
-        """lets every call in progress run to its end (not part of the trace)"""
-        quiet = not any(w.active for w in self.w.values())
+        """lets every call in progress run to its end (not part of the trace); -> was everything quiet before?"""
+        quiet = not any(w.active or w.await_reply for w in self.w.values())
         for _ in range(400):
-            act = [w for w in self.w.values() if w.active]
+            act = [w for w in self.w.values() if w.active or w.await_reply]
             if not act:
                 break
             for w in act:
                 if w.pending is not None:
                     w.release()
                 r = w.wait(0.3)
-                if r == "reply":
+                if r in ("reply", "died"):
                     w.active = False
-                elif r == "died":
-                    w.active = False
+                    w.await_reply = None
         return quiet
 
     def fresh(self):
